@@ -31,6 +31,107 @@ def find(F, q):
     return r
 
 
+_SOME_PATH = {'k': 'Path', 'res': 'Ctor(Variant, Fn)', 'def': 'std::option::Option::Some'}
+_NONE = {'k': 'Path', 'res': 'Ctor(Variant, Const)', 'def': 'std::option::Option::None'}
+_fresh_id = [10 ** 6]
+
+
+def _some(x):
+    return {'k': 'Call', 'callee': 'std::option::Option::Some', 'callee_res': 'Ctor(Variant, Fn)',
+            'ch': [_SOME_PATH, x]}
+
+
+def _blk(x):
+    return {'k': 'Block', 'stmts': [], 'expr': x, 'ty': x.get('ty')}
+
+
+def _apply_fn(f, ty=None):
+    """(pattern, body) such that `f(x)` is `body` with `x` bound by `pattern`"""
+    from facts import peel
+    f = peel(f)
+    if f.get('k') == 'Closure' and len(f.get('params', [])) == 1:
+        return f['params'][0], f['ch'][0]
+    if f.get('k') == 'Path' and f.get('res') in ('AssocFn', 'Fn', 'Ctor(Struct, Fn)', 'Ctor(Variant, Fn)'):
+        _fresh_id[0] += 1
+        lid = _fresh_id[0]
+        pat = {'k': 'Binding', 'local': lid, 'name': 'x', 'mut': False}
+        arg = {'k': 'Path', 'res': 'local', 'local': lid, 'name': 'x'}
+        return pat, {'k': 'Call', 'callee': f.get('def'), 'callee_res': f.get('res'), 'ch': [f, arg],
+                     'targs': f.get('targs')}
+    return None
+
+
+def _thunk(d):
+    from facts import peel
+    d = peel(d)
+    if d.get('k') == 'Closure' and not d.get('params'):
+        return d['ch'][0]
+    if d.get('k') == 'Path' and d.get('res') in ('AssocFn', 'Fn'):
+        return {'k': 'Call', 'callee': d.get('def'), 'callee_res': d.get('res'), 'ch': [d], 'targs': d.get('targs')}
+    return None
+
+
+def expand_options(e, top=True):
+    """Option combinators as control flow: `o.map(f)`, `o.and_then(f)`, `o.map_or(d, f)`,
+    `o.map_or_else(d, f)` become `if let Some(x) = o { .. } else { .. }`, and a top-level
+    `let p = o?;` in a function returning an Option becomes `if let Some(p) = o { rest } else
+    { None }`, so that a combinator chain and the match it abbreviates have one table."""
+    from facts import callee_is, try_operand
+    if isinstance(e, list):
+        return [expand_options(x, False) for x in e]
+    if not isinstance(e, dict):
+        return e
+    out = {k: (expand_options(v, False) if isinstance(v, (dict, list)) and k not in ('targs', 'adj', 'pat', 'params', 'captures')
+               else v) for k, v in e.items()}
+    k = out.get('k')
+    if k == 'MethodCall' and callee_is(out, 'Option::map', 'Option::and_then', 'Option::map_or',
+                                      'Option::map_or_else') and len(out['ch']) in (2, 3):
+        m = out['method']
+        recv = out['ch'][0]
+        fa = _apply_fn(out['ch'][-1])
+        if fa is not None:
+            pat, body = fa
+            then = body if m in ('and_then', 'map_or', 'map_or_else') else _some(body)
+            if m in ('map', 'and_then'):
+                els = _NONE
+            elif m == 'map_or':
+                els = out['ch'][1]
+            else:
+                els = _thunk(out['ch'][1])
+            if els is not None:
+                le = {'k': 'LetExpr', 'pat': {'k': 'TupleStruct', 'def': 'std::option::Option::Some', 'ch': [pat]},
+                      'ch': [recv], 'ty': 'bool'}
+                return {'k': 'If', 'ch': [le, _blk(then), _blk(els)], 'ty': out.get('ty'), 'sp': out.get('sp')}
+    if k == 'Block' and top and (out.get('ty') or '').startswith('std::option::Option'):
+        stmts = out.get('stmts', [])
+        for i, st in enumerate(stmts):
+            if st.get('k') == 'Let' and 'init' in st:
+                op = try_operand(st['init'])
+                if op is not None and (op.get('ty') or '').startswith('std::option::Option') and 'expr' in out:
+                    rest = expand_options({'k': 'Block', 'stmts': stmts[i + 1:], 'expr': out['expr'], 'ty': out.get('ty')}, True)
+                    le = {'k': 'LetExpr', 'pat': {'k': 'TupleStruct', 'def': 'std::option::Option::Some',
+                                                 'ch': [st['pat']]}, 'ch': [op], 'ty': 'bool'}
+                    iff = {'k': 'If', 'ch': [le, rest, _blk(_NONE)], 'ty': out.get('ty'), 'sp': out.get('sp')}
+                    return {'k': 'Block', 'stmts': stmts[:i], 'expr': iff, 'ty': out.get('ty'), 'sp': out.get('sp')}
+                break
+    return out
+
+
+def tbl(fn):
+    """decision table with parameters named by position (p0, p1 ..; the receiver stays `self`)"""
+    from facts import _pat_binds
+    env = {}
+    i = 0
+    for p in fn.params:
+        for b in _pat_binds(p):
+            if b['name'] == 'self':
+                env[b['local']] = 'self'
+            else:
+                env[b['local']] = 'p%d' % i
+                i += 1
+    return dtree.table(expand_options(fn.hir), env)
+
+
 def rows_of(t):
     return sorted([sorted(cs), leaf, list(ef)] for cs, leaf, ef in t)
 
@@ -48,9 +149,10 @@ def check(run, F, name):
             continue
         fn = fs[0]
         n += 1
-        t = N.tbl(fn)
+        t = tbl(fn)
         want = N.T(*[(r[0], r[1], r[2]) for r in ent['table']])
-        ok = t == want
+        # `alts`: other confirmed spellings (e.g. a predicate written through its own negation)
+        ok = t == want or any(t == N.T(*[(r[0], r[1], r[2]) for r in alt]) for alt in ent.get('alts', []))
         run.ob('PIN.table', fn, key, ok, fn.loc(),
                ('table as confirmed: %s' % ent.get('why', spec.get('why', ''))) if ok else
                'table %s ; confirmed %s' % (dtree.show(t)[:300], dtree.show(want)[:300]))
